@@ -9,6 +9,10 @@ class _DefaultGraph:
     def __repr__(self) -> str:
         return ""
 
+    def __reduce__(self) -> str:
+        # There is one default graph: copies and unpickled values are DefaultGraph itself.
+        return "DefaultGraph"
+
 
 DefaultGraph = _DefaultGraph()
 
